@@ -26,7 +26,7 @@ TOL = 1e-7          # scipy.linprog (HiGHS) feasibility/optimality tolerance + f
 #   |best_gap_ - exact gap of the matching multiplier| / max(1,|g|) <= 1.2e-14 ; exact gap - best_gap_ <= 1.2e-14 ;
 #   min(weights_) >= 0 exactly ; |sum(weights_) - 1| <= 5.8e-15 ; |_pmf_predict - mixture| <= 1.1e-16 ; min multiplier >= 0.
 PRECISION = 1e-8    # fairlearn's _PRECISION: best_gap_ may understate the true gap by up to this much (theorem
-                    # C08.classGap_le_evalGap_gap, witnesses C08.precision_slack_needed and corpus/C08/r2-precision-slack-witness.py)
+                    # C08.classGap_le_evalGap_gap, witnesses C08.precision_slack_needed and corpus/C08/f23-precision-slack.json (known finding F23))
 ROUND = 1e-12       # float rounding of the gap / guarantee relations (< 100 x 1.2e-14; was 1e-7 together with the slack)
 W_TOL = 5e-13       # weights_ is a probability vector (< 100 x 5.8e-15; was 1e-7)
 PMF_TOL = 1e-14     # _pmf_predict is the weights_-mixture (100 x 1.1e-16; was 1e-9)
